@@ -629,6 +629,120 @@ theorem C18_calc_meets_contract (env : Env) (status : String) (acc : Bool) (ps :
         obtain ⟨b1, b2, b3, b4, b5⟩ := (createCommon_spec env ps).2 c' k1
         exact ⟨b1, b2, b3, b4, b5, (fun hh => nomatch hh), fun _ => ⟨k2, k3⟩⟩
 
+
+/-! ### requests without a duplicated key: the value of every numeric parameter -/
+
+/-- the numeric parameter of the calculation that the request parameter `k` sets -/
+def Common.get (c : Common) (k : String) : Int :=
+  if k = "time_of_trip" then c.time else if k = "min_waiting_time" then c.minWait else if k = "max_travel_time" then c.maxTotal
+  else if k = "max_access_travel_time" then c.maxAccess else if k = "max_egress_travel_time" then c.maxEgress
+  else if k = "max_transfer_travel_time" then c.maxTransfer else if k = "max_first_waiting_time" then c.maxFirstWait else 0
+
+/-- the documented normalisation: a negative time is "missing", a negative waiting time is 0, a non-positive maximum is
+    "no limit" (MAX_INT), a non-positive first-waiting cap disables the cap (-1) -/
+def norm (k : String) (n : Int) : Int :=
+  if k = "time_of_trip" then (if n < 0 then -1 else n) else if k = "min_waiting_time" then (if n < 0 then 0 else n)
+  else if k = "max_first_waiting_time" then (if n ≤ 0 then -1 else n) else (if n ≤ 0 then MAX_INT else n)
+
+theorem commonStep_get {env : Env} {c c' : Common} {kv : String × String} (h : commonStep env c kv = .ok c') (k : String) (hk : k ∈ numericKeys) :
+    (kv.1 = k → ∃ n, stoiFull kv.2 = some n ∧ c'.get k = norm k n) ∧ (kv.1 ≠ k → c'.get k = c.get k) := by
+  unfold commonStep at h
+  simp only at h
+  simp only [numericKeys, List.mem_cons, List.not_mem_nil, or_false] at hk
+  repeat' split at h
+  all_goals (cases h)
+  all_goals (rcases hk with rfl | rfl | rfl | rfl | rfl | rfl | rfl)
+  all_goals (refine ⟨fun he => ?_, fun hne => ?_⟩)
+  all_goals first
+    | (exfalso; simp_all; done)
+    | (refine ⟨_, ‹_›, ?_⟩; simp [Common.get, norm, *]; done)
+    | (simp [Common.get, *]; done)
+    | (simp_all [Common.get]; done)
+
+theorem commonLoop_get {env : Env} : ∀ (ps : List (String × String)) (c c' : Common), (ps.map (·.1)).Nodup → commonLoop env ps c = .ok c' →
+    ∀ k ∈ numericKeys, c'.get k = match ps.lookup k with
+      | some v => norm k ((stoiFull v).getD 0)
+      | none => c.get k := by
+  intro ps
+  induction ps with
+  | nil => intro c c' _ h k _; simp only [commonLoop, Except.ok.injEq] at h; subst h; rfl
+  | cons kv rest ih =>
+    intro c c' hnd h k hk
+    rw [commonLoop] at h
+    split at h
+    · cases h
+    · rename_i c1 hstep
+      simp only [List.map_cons, List.nodup_cons] at hnd
+      have hrest := ih c1 c' hnd.2 h k hk
+      obtain ⟨g1, g2⟩ := commonStep_get hstep k hk
+      rw [List.lookup_cons]
+      by_cases e : kv.1 = k
+      · have hb : (k == kv.1) = true := by simp [e]
+        rw [hb]
+        have hnone : rest.lookup k = none := by
+          rw [List.lookup_eq_none_iff]
+          intro p hp
+          have : p.1 ∈ rest.map (·.1) := List.mem_map.2 ⟨p, hp, rfl⟩
+          simp only [bne_iff_ne, ne_eq]
+          intro hkk
+          exact hnd.1 (by rw [e, hkk]; exact this)
+        rw [hnone] at hrest
+        obtain ⟨n, hn, hv⟩ := g1 e
+        simp only at hrest ⊢
+        rw [hrest, hv, hn]; rfl
+      · have hb : (k == kv.1) = false := by simp; exact fun h => e h.symm
+        rw [hb]
+        simp only
+        rw [hrest, g2 e]
+
+/-- **C18 (defaults, "non-positive = no limit")**: in a request without a duplicated key, every numeric parameter of the
+    calculation is the documented default when the parameter is omitted and the normalised value of the request when it is
+    given — for every order of the pairs. -/
+theorem C18_unique_keys_values (env : Env) (status : String) (acc : Bool) (ps : List (String × String)) (c : Common) (alt : Bool)
+    (hnd : (ps.map (·.1)).Nodup) (h : handle env status acc ps = .calc c alt) :
+    ∀ k ∈ numericKeys, c.get k = match ps.lookup k with
+      | some v => norm k ((stoiFull v).getD 0)
+      | none => ({} : Common).get k := by
+  have hc : createCommon env ps = .ok c := by
+    unfold handle at h
+    simp only at h
+    split at h
+    · cases h
+    · cases acc with
+      | true =>
+        simp only [if_true] at h
+        cases hca : createAccess env ps with
+        | error e => rw [hca] at h; cases h
+        | ok r =>
+          obtain ⟨p, c'⟩ := r
+          rw [hca] at h; simp only [Resp.calc.injEq] at h
+          obtain ⟨rfl, _⟩ := h
+          exact ((createAccess_spec env ps).2 p c' hca).1
+      | false =>
+        simp only [Bool.false_eq_true, if_false] at h
+        cases hcr : createRoute env ps with
+        | error e => rw [hcr] at h; cases h
+        | ok r =>
+          obtain ⟨s, c'⟩ := r
+          rw [hcr] at h; simp only [Resp.calc.injEq] at h
+          obtain ⟨rfl, _⟩ := h
+          exact ((createRoute_spec env ps).2 s c' hcr).1
+  unfold createCommon at hc
+  cases hl : commonLoop env ps {} with
+  | error e => rw [hl] at hc; cases hc
+  | ok c0 =>
+    rw [hl] at hc
+    simp only at hc
+    repeat' split at hc
+    all_goals (cases hc)
+    exact commonLoop_get ps {} c hnd hl
+
+/-- the defaults are the documented ones -/
+theorem C18_default_values :
+    ({} : Common).get "min_waiting_time" = 180 ∧ ({} : Common).get "max_travel_time" = MAX_INT ∧ ({} : Common).get "max_access_travel_time" = 1200 ∧
+    ({} : Common).get "max_egress_travel_time" = 1200 ∧ ({} : Common).get "max_transfer_travel_time" = 1200 ∧
+    ({} : Common).get "max_first_waiting_time" = 1800 := by decide
+
 /-- `std::stoi` + full consumption on the corner cases (tests of the model's `stoiFull`, labelled as tests; the
     same strings go to the real server on every run of the C18 check) -/
 theorem C18_stoi_examples :
@@ -652,5 +766,19 @@ theorem C18_params_examples :
     handle env "READY" true [("scenario_id", "S"), ("time_of_trip", "1")] = .queryError "MISSING_PARAM_PLACE" ∧
     handle env "NO_LINES" true [("whatever", "x")] = .dataError "MISSING_DATA_LINES" := by
   decide
+
+/-- the names, the numeric ones, the order of the checks after each loop and the shape of `getIntegerValue` are those the
+    translator reads from the three parameter factories NOW (a renamed parameter, a reordered check, a numeric parameter
+    parsed another way make this fail) -/
+theorem C18_params_source :
+    Gen.commonKeys = ["time_of_trip", "time_type", "scenario_id", "min_waiting_time", "max_travel_time", "max_access_travel_time",
+      "max_egress_travel_time", "max_transfer_travel_time", "max_first_waiting_time"] ∧
+    Gen.commonNumericKeys = numericKeys ∧
+    Gen.commonThrows = [PErr.missingScenario.typeName, PErr.emptyScenario.typeName, PErr.missingTime.typeName] ∧
+    Gen.routeKeys = ["origin", "destination", "alternatives"] ∧
+    Gen.routeThrows = [PErr.invalidOrigin.typeName, PErr.invalidOrigin.typeName, PErr.invalidDestination.typeName, PErr.invalidDestination.typeName,
+      PErr.missingOrigin.typeName, PErr.missingDestination.typeName] ∧
+    Gen.accessKeys = ["place"] ∧ Gen.accessThrows = [PErr.invalidPlace.typeName, PErr.invalidPlace.typeName, PErr.missingPlace.typeName] ∧
+    Gen.integerValueIsFullStoi = true := by decide
 
 end Tr.Par
